@@ -13,6 +13,7 @@ contract(
         "self.process_info.hashlist_custom_basename is None",
         "len(self.media_hashes) == 0",
         "len(self.media_hashes_path_map.keys()) == 0",
+        "dict_is_empty(self.media_hashes_path_map)",
         "self.file_path is None",
         "self.generation_number is None",
         "len(self.referenced_hash_lists) == 0",
